@@ -499,7 +499,17 @@ fn gen_locks(ctx: &mut Ctx) -> Result<String, String> {
         else { return Err(format!("Condvar::wait_while: unexpected cfg `{a}`")); }
     }
     if seen != 2 { return Err("Condvar::wait_while: expected one block per lock implementation".into()); }
-    Ok(format!("/-- `Condvar::wait_while` re-checks its condition after every wake-up (std locks) -/\ndef waitWhileRechecksStd : Bool := {std_ok}\n/-- the same with the `parking_lot` feature -/\ndef waitWhileRechecksParkingLot : Bool := {pl_ok}\n\n"))
+    // the handshake of `hot_reload`: value-level facts that no effect skeleton shows
+    let hr: String = std::fs::read_to_string(ctx.repo.join("src/hot_reloading/mod.rs")).map_err(|e| e.to_string())?.chars().filter(|c| !c.is_whitespace()).collect();
+    // a caller waits for exactly ITS token; tokens are distinct (fetch_add 1); the wrapper's notify_all wakes everybody
+    let waits_own = hr.contains("self.condvar.wait_while(guard,|t|*t!=Some(token));");
+    let notify_waits_empty = hr.contains("self.condvar.wait_while(guard,|t|t.is_some());");
+    let distinct = hr.contains("self.next_token.fetch_add(1,Ordering::Relaxed)");
+    let private_src: String = std::fs::read_to_string(ctx.repo.join("src/utils/private.rs")).map_err(|e| e.to_string())?.chars().filter(|c| !c.is_whitespace()).collect();
+    let wakes_all = private_src.contains("pubfnnotify_all(&self){self.0.notify_all();}");
+    // a request takes in exactly the events that were sent before it (bounded by the length of the EVENT channel)
+    let drains_events = hr.contains("for_in0..events.len(){ifletOk(msg)=events.try_recv(){cache.handle_events(msg);}}");
+    Ok(format!("/-- `Condvar::wait_while` re-checks its condition after every wake-up (std locks) -/\ndef waitWhileRechecksStd : Bool := {std_ok}\n/-- the same with the `parking_lot` feature -/\ndef waitWhileRechecksParkingLot : Bool := {pl_ok}\n/-- `Answers`: a caller waits until the slot holds exactly its own token (`*t != Some(token)`), the reloader publishes only into an empty slot, tokens come from `fetch_add(1)`, and the wrapper's `notify_all` is the primitive's `notify_all` -/\ndef answersHandshakeExact : Bool := {}\n/-- a `hot_reload` request takes in the events that were in the EVENT channel when it was taken (`for _ in 0..events.len()`) -/\ndef requestTakesPendingEvents : Bool := {drains_events}\n\n", waits_own && notify_waits_empty && distinct && wakes_all))
 }
 
 /// facts about wrapper impls that only property theorems use (no model definition depends on them)
